@@ -6,7 +6,8 @@
    Premise [kinds_ok]: command kinds are 0..5 — true of everything the parser produces (C02_parser_kinds). *)
 From Coq Require Import List NArith Bool.
 Import ListNotations.
-From HV Require Import Model.Parse Model.Exec Model.Opt Proofs.OptSpec Proofs.OptAll.
+From HV Require Import Model.Parse Model.Exec Model.Opt Model.Utf8 Model.Cli Spec.Lang Proofs.OptSpec Proofs.OptAll Proofs.UniSpec Proofs.TopSpec.
+From HV Require Proofs.TopProofs.
 Open Scope N_scope.
 
 (* level 1 runs in lockstep with the unoptimised run: same behaviour for EVERY step budget (terminating or not) *)
@@ -54,6 +55,27 @@ Print Assumptions C02_speculation_sound.
 Theorem C02_parser_kinds : forall text, kinds_ok (parse text).
 Proof. exact parse_kinds_ok. Qed.
 Print Assumptions C02_parser_kinds.
+
+(* capstone, composing file decoding, the parser, C01 and the theorems above: whatever the language definition says a
+   program does on an input — normal end, program-requested exit, unencodable value — `hyeong run -O<level>` (CLI model)
+   does at EVERY level 0, 1, 2: same exit status and the same bytes on stdout and stderr; on an unencodable value the same
+   diagnostic, with all earlier output at level 0 (at levels 1 and 2 it may be withheld) *)
+Theorem C02_every_level_meets_the_definition_done : forall level text input f s, level <= 2 -> scalars text -> scalars input -> small_text text ->
+  srun f (prog_of_text text) (lstate0 (lines_of input)) 0 = SDone s ->
+  exists F, run_cli level (FBytes true (encode text)) (encode input) F = CExit 0 (encode (out s)) (encode (err s)).
+Proof. exact TopProofs.cli_done. Qed.
+Print Assumptions C02_every_level_meets_the_definition_done.
+Theorem C02_every_level_meets_the_definition_exit : forall level text input f c s, level <= 2 -> scalars text -> scalars input -> small_text text ->
+  srun f (prog_of_text text) (lstate0 (lines_of input)) 0 = SExited c s ->
+  exists F, run_cli level (FBytes true (encode text)) (encode input) F = CExit c (encode (out s)) (encode (err s)).
+Proof. exact TopProofs.cli_exit. Qed.
+Print Assumptions C02_every_level_meets_the_definition_exit.
+Theorem C02_every_level_meets_the_definition_enc : forall level text input f n s, level <= 2 -> scalars text -> scalars input -> small_text text ->
+  srun f (prog_of_text text) (lstate0 (lines_of input)) 0 = SFailed (SEnc n) s ->
+  exists F o e, run_cli level (FBytes true (encode text)) (encode input) F = CDiag (DgEnc n) o e /\
+    (level = 0 -> o = encode (out s) /\ e = encode (err s)).
+Proof. exact TopProofs.cli_enc. Qed.
+Print Assumptions C02_every_level_meets_the_definition_enc.
 
 (* the pinned optimiser violated the property; witnesses replayed on the model with the pinned flags:
    D7 (level 1, shared slot), D5 (level 2, operand order), D6 (level 2, output kept and repeated) *)
